@@ -1181,3 +1181,73 @@ func TestC13_Hammer(t *testing.T) {
 		vk.Case(c13PID, desc, true, lab...)
 	})
 }
+
+// TestC13_RebindQueryUnderNonceLock: with the nonce-order lock in force (FIPS AEAD), a control send that
+// takes the "underlay was rebound, tell the lighthouse" branch has its counter reserved already. The
+// lighthouse query may block (its queue is bounded); the harness makes it block on purpose and lets a
+// second sender run on the same tunnel meanwhile. Whatever happens, the cipher must see the counters
+// of that tunnel in increasing order. Deterministic staging of what the hammer only hits by chance.
+func TestC13_RebindQueryUnderNonceLock(t *testing.T) {
+	c13ModeNote()
+	vk.Check(t, 40, func(rt *rapid.T) {
+		old := noiseutil.EncryptLockNeeded
+		noiseutil.EncryptLockNeeded = true
+		defer func() { noiseutil.EncryptLockNeeded = old }()
+		chacha := rapid.Bool().Draw(rt, "chacha")
+		sA := c13DrawStart(rt, "startA", 16)
+		w := c13NewWorld(chacha, sA, c13Start{v: 2, hs: 2}, 2, false)
+		lh := &LightHouse{queryChan: make(chan netip.Addr)} // unbuffered: the query blocks until somebody takes it
+		lh.lighthouses.Store(&[]netip.Addr{})
+		w.f.lightHouse = lh
+		second := rapid.SampledFrom([]string{"hot", "ctl", "via"}).Draw(rt, "secondSender")
+		w.f.rebindCount.Add(1)
+		var wg sync.WaitGroup
+		wg.Add(2)
+		ad := []byte("payload")
+		go func() {
+			defer wg.Done()
+			w.f.sendNoMetrics(header.Test, header.TestRequest, w.ciA, w.hA, w.directRemote, ad, w.nbs[0], make([]byte, 0, 256), 0)
+		}()
+		time.Sleep(2 * time.Millisecond) // the first sender is inside the branch, blocked in QueryServer
+		go func() {
+			defer wg.Done()
+			switch second {
+			case "hot":
+				seg := c13TunPacket(1, 9).Bytes
+				w.f.sendInsideEncrypt(w.hA, w.ciA, seg, make([]byte, header.Len+len(seg)+16), w.nbs[1])
+			case "ctl":
+				// another control send: it also sees the rebind and queues its own query
+				w.f.sendNoMetrics(header.Test, header.TestReply, w.ciA, w.hA, w.directRemote, ad, w.nbs[1], make([]byte, 0, 256), 1)
+			case "via":
+				_, _ = w.f.prepareSendVia(w.hA, w.relay, ad, w.nbs[1], make([]byte, 0, 256), false)
+			}
+		}()
+		time.Sleep(2 * time.Millisecond)
+		// the lighthouse worker finally takes the queries
+		done := make(chan struct{})
+		go func() { wg.Wait(); close(done) }()
+		for released := false; !released; {
+			select {
+			case <-lh.queryChan:
+			case <-done:
+				released = true
+			case <-time.After(5 * time.Second):
+				rt.Fatalf("harness: senders did not finish")
+			}
+		}
+		w.h.mu.Lock()
+		log := append([]c13LogEntry{}, w.h.log...)
+		w.h.mu.Unlock()
+		var last uint64
+		for i, e := range log {
+			if e.key != "A" {
+				continue
+			}
+			if i > 0 && e.n <= last {
+				rt.Fatalf("C13: with the nonce-order lock in force the cipher of one tunnel saw counter %d after counter %d (second sender: %s); a send that had reserved its counter let another one overtake it while it was asking the lighthouse after a rebind", e.n, last, second)
+			}
+			last = e.n
+		}
+		vk.Case(c13PID, fmt.Sprintf("rebind-query/%v/%s/%s", chacha, c13Rel(sA.v), second), len(log) >= 2, "rebind-query-blocked-under-nonce-lock", "second:"+second)
+	})
+}
